@@ -41,11 +41,10 @@ def stringio_world(eng):
     """io.StringIO as an accumulator of terminal effects: what is written is interpreted at once by the VT machine"""
     def new(e, s, a, k):
         s = e.fork(s)
-        return [(s.new("StringIO", {"n": 0}), s)]
+        return [(s.new("StringIO", {}), s)]
 
     def write(e, s, recv, a, k):
         s = e.fork(s)
-        n = s.H(recv)["n"] = s.H(recv)["n"] + 1
         vt = VT(e, s, tag=f"buf.write")
         vt.feed(a[0])
         vt.commit()
